@@ -13,6 +13,7 @@
 #include <gmp.h>
 #include <gmpxx.h>
 #include <recint/recint.h>
+#include "c06_watchdog.h"
 
 #ifndef C06_PART
 #define C06_PART 0
@@ -54,9 +55,8 @@ static uint64_t word(const Args& a, size_t i) {
 }
 static int sgn3(int s) { return s < 0 ? -1 : s > 0 ? 1 : 0; }
 
-// ruint<K>(const char*): ruint<6> declares it but the library never defines it (link error), so K = 6 is not callable
+// ruint<K>(const char*) for every K (the one-limb specialisation is defined since /repo ebe0fe7)
 template <size_t K> struct FromStr { static std::string go(const char* s) { ruint<K> t(s); return to_hex(t); } };
-template <> struct FromStr<6> { static std::string go(const char*) { return "NOT-CALLABLE"; } };
 
 #define V(name) else if (v == name)
 #define OUT1(x) o << to_hex(x)
@@ -466,6 +466,7 @@ template <size_t K, bool WIDE> static std::string run(const std::string& v, Args
 
 int main() {
     std::string line;
+    c06_watchdog_install(); const double budget = c06_cpu_budget();
     std::cout << "#thr " << __RECINT_THRESHOLD_KARA << "\n";
     while (std::getline(std::cin, line)) {
         std::istringstream is(line);
@@ -481,6 +482,7 @@ int main() {
             a.push_back(z);
         }
         std::string r;
+        c06_arm(budget);
         switch (K) {
             case 6: r = run<6, true>(v, a); break;
             case 7: r = run<7, true>(v, a); break;
@@ -490,6 +492,7 @@ int main() {
             case 11: r = run<11, false>(v, a); break;     // forms that need ruint<12> are covered up to K = 10
             default: r = "BAD-K";
         }
+        c06_disarm();
         std::cout << r << std::endl;
         for (auto z : a) { mpz_clear(*z); delete[] z; }
     }
